@@ -249,6 +249,8 @@ void call_pubsub_cb(m_mod_t *mod, m_queue_t *evts) {
     }
     
     M_MEM_LOCK(mod, {
+        /* Callbacks nest (eg: m_mod_unstash() from a handler): give the outer one back its turn afterwards */
+        m_mod_t *prev_mod = mod->ctx->curr_mod;
         mod->ctx->curr_mod = mod;
         
         /* If module is using some different receive function, honor it. */
@@ -268,7 +270,7 @@ void call_pubsub_cb(m_mod_t *mod, m_queue_t *evts) {
         
         fetch_ms(&mod->stats.last_seen, NULL);
         
-        mod->ctx->curr_mod = NULL;
+        mod->ctx->curr_mod = prev_mod;
     });
 end:
     /* Destroy events */
